@@ -153,6 +153,15 @@ def run_check(spec, tier, seed):
                 broken.append(("leanchecker " + tgt, r.stdout.decode(errors="replace")[-1500:]))
         checker_cmd += "; lake env leanchecker " + " ".join(spec.lean_targets)
     cov["leanchecker"] = "run" if tier == "thorough" else "thorough tier only"
+    if os.environ.get("VERIF_OBLIGATIONS_ONLY"):
+        # diagnostic mode of tools/run_seeded.py --obligations (never used by a registered command, writes no evidence): which proof
+        # obligations does the tree break, independently of any sampling?
+        import re as _re
+        for t, detail in broken:
+            mods = sorted(set(_re.findall(r"^- (AsamCmp[\w.]*)", detail, _re.M)))
+            print("BROKEN-OBLIGATION %s :: %s" % ("modules that no longer build: " + " ".join(mods) if mods else t, " ".join(detail.split())[:300]))
+        print("OBLIGATIONS property=%s discharged=%d/%d broken=%d" % (prop, len(discharged), len(obligations), len(broken)))
+        return 1 if broken else 0
 
     # 3./4. corpus + generated cases
     rng = random.Random(seed * 1000003 + hash_str(prop))
